@@ -147,7 +147,8 @@ CHECKS = {
              "short and long option names, %S / %I / %h:%m:%s.%i, three printf templates) and TLC (CliTrace) compares exit status, line "
              "count, ids, every printed time with the exact instant of the API detection obtained with the prescribed kwargs, field ranges "
              "and recomposition, and the projected -O / -o / -j files; unknown directives must raise. Existence and uniqueness of the field tuple are "
-             "proved for ALL whole-millisecond values by Apalache on CliInt.",
+             "proved for ALL whole-millisecond values by Apalache on CliInt; every --time-format template of up to 3 (thorough: 4) tokens is enumerated by TLC "
+             "(CliTpl) with its outcome -- accepted or unknown directive -- and built with make_duration_formatter.",
         ref="DESIGN.md 5/C15", technique="TLA+ enumeration of option vectors (TLC) + one command-line execution per vector judged by TLC against the API",
         note="Trusted: TLC/SANY, CPython, argparse; main() runs in worker processes with its 1 s poll shortened. Printed whole-millisecond values must "
              "equal int(v*1000) of the float v the API reports and lie within one millisecond below the exact instant (O2); %S within half a "
